@@ -95,6 +95,7 @@ func SumPrivateKeys(privateKeys ...[]byte) ([]byte, error) {
 		}
 		sum.Add(sum, keyInt)
 	}
+	sum.Mod(sum, ekliptic.Secp256k1_CurveOrder)
 	sumBytes := sum.FillBytes(make([]byte, 32))
 	return sumBytes, nil
 }
